@@ -213,4 +213,86 @@ theorem rows_tab {ref est : List Str} {rs es : List Encoded} (hl : ref.length = 
   · intro rule
     exact zipWith_eq_tab _ rs es (by omega) _ _
 
+/-! ### one list at a time (mirex interleaves `encode_many` and `rotate_bitmaps_to_roots`) -/
+
+/-- row `i` of an `encode_many` result as a row of the comparison model (the N sentinel beyond the end) -/
+def rowAt (xs : List Encoded) (i : Nat) : Enc := toEnc (xs.getD i Tables.noChordEncoded)
+
+theorem rowAt_reachable {ls : List Str} {xs : List Encoded} (h : encodeAll false ls = .ok xs) (i : Nat) :
+    Reachable (rowAt xs i) := by
+  unfold rowAt
+  by_cases hi : i < xs.length
+  · have hm : xs.getD i Tables.noChordEncoded ∈ xs := by
+      simp [List.getD_eq_getElem?_getD, hi]
+    obtain ⟨hl', hall⟩ := (encodeAll_ok_iff false ls xs).1 h
+    obtain ⟨j, hj, hje⟩ := List.getElem_of_mem hm
+    have hj' : j < ls.length := hl' ▸ hj
+    have hmem : (ls[j], xs[j]) ∈ ls.zip xs := by
+      rw [List.mem_iff_getElem]
+      exact ⟨j, by simp [hj, hj'], by simp⟩
+    rw [← hje]
+    exact Chord.encode_reachable (hall _ hmem)
+  · have : xs.getD i Tables.noChordEncoded = Tables.noChordEncoded := by
+      simp [List.getD_eq_getElem?_getD, List.getElem?_eq_none (by omega : xs.length ≤ i)]
+    rw [this, toEnc_noChordEncoded]
+    exact reachable_noChord
+
+theorem map_root_tab (xs : List Encoded) : xs.map (fun x => x.1) = tab xs.length (fun i => (rowAt xs i).root) :=
+  map_eq_tab xs _ Tables.noChordEncoded
+theorem map_bm_tab (xs : List Encoded) : xs.map (fun x => x.2.1) = tab xs.length (fun i => (rowAt xs i).bm) :=
+  map_eq_tab xs _ Tables.noChordEncoded
+theorem map_bass_tab (xs : List Encoded) : xs.map (fun x => x.2.2) = tab xs.length (fun i => (rowAt xs i).bass) :=
+  map_eq_tab xs _ Tables.noChordEncoded
+
+theorem zipWith_cmp_tab (rule : Rule) (rs es : List Encoded) (h : es.length = rs.length) :
+    List.zipWith (fun r e => ChordCompare.cmp rule (toEnc r) (toEnc e)) rs es =
+      tab rs.length (fun i => ChordCompare.cmp rule (rowAt rs i) (rowAt es i)) :=
+  zipWith_eq_tab _ rs es h _ _
+
+theorem isEmpty_tab {α : Type} (n : Nat) (f : Nat → α) : (tab n f).isEmpty = decide (n = 0) := by
+  cases n with
+  | zero => rfl
+  | succ k => simp [tab, List.range_succ]
+
+theorem zip_tab {α β : Type} (n : Nat) (a : Nat → α) (b : Nat → β) :
+    List.zip (tab n a) (tab n b) = tab n (fun i => (a i, b i)) := by
+  rw [List.zip_eq_zipWith, zipWith_tab]
+
+theorem mapM_ok_of_forall {α β : Type} (l : List α) (f : α → Py β) (g : α → β) (h : ∀ x ∈ l, f x = .ok (g x)) :
+    l.mapM f = .ok (l.map g) := by
+  induction l with
+  | nil => rfl
+  | cons x xs ih =>
+    have hx := h x (by simp)
+    have ih' := ih (fun y hy => h y (by simp [hy]))
+    simp only [List.mapM_cons, hx, ih', bind, Except.bind, pure, Except.pure, List.map_cons]
+
+theorem mapM_tab_ok {α β : Type} (n : Nat) (a : Nat → α) (f : α → Py β) (g : Nat → β)
+    (h : ∀ i, i < n → f (a i) = .ok (g i)) : (tab n a).mapM f = .ok (tab n g) := by
+  unfold tab
+  rw [List.mapM_map]
+  exact mapM_ok_of_forall _ _ g (fun i hi => h i (List.mem_range.1 hi))
+
+theorem stackRows_ok {α : Type} (rows : List (List α)) (k : Nat) (h : ∀ r ∈ rows, r.length = k) :
+    stackRows rows = .ok rows := by
+  cases rows with
+  | nil => rfl
+  | cons r rs =>
+    unfold stackRows
+    have hr := h r (by simp)
+    have : rs.all (fun x => x.length == r.length) = true := by
+      simp only [List.all_eq_true, beq_iff_eq]
+      intro x hx
+      rw [h x (by simp [hx]), hr]
+    simp [this]
+
+theorem length_rotate (bm : List Int) (r : Int) : (ChordCompare.rotate bm r).length = bm.length := by
+  simp [ChordCompare.rotate]
+
+theorem countPos_map (bm : List Int) :
+    (((bm.map fun x => decide (x > 0)).filter id).length : Int) = ChordCompare.countPos bm := by
+  unfold ChordCompare.countPos
+  rw [List.filter_map, List.length_map]
+  rfl
+
 end Mir.PyCmp
